@@ -296,7 +296,8 @@ def _url_text():
 
 def _string_values(opts):
     """Values aimed at a StringField parameterisation: satisfy / just miss every option."""
-    parts = [st.text(max_size=8), st.sampled_from(["", " ", "a", "ab", "abc", "Ab", "aB", "  ab  ", "foo", "bar", "a1z", "42", "x", " x ", "\tx\n"])]
+    parts = [st.text(max_size=8), st.sampled_from(["", " ", "a", "ab", "abc", "Ab", "aB", "  ab  ", "foo", "bar", "a1z", "42", "x", " x ", "\tx\n",
+                                                    "ß", "aß", "ﬁ", "İ", "aaß", "ßa"])]
     if opts.get("choices"):
         ch = opts["choices"]
         parts.append(st.sampled_from(ch))
